@@ -307,7 +307,17 @@ pub(crate) fn load_toplevel_items(
     namespace: Rc<RefCell<NamespaceInfo>>,
 ) -> (Vec<Diagnostic>, Vec<SymbolName>) {
     let mut paths_seen = FxHashSet::default();
-    load_toplevel_items_(items, env, &mut paths_seen, namespace, false)
+    let mut unfinished_imports = vec![];
+    let res = load_toplevel_items_(
+        items,
+        env,
+        &mut paths_seen,
+        &mut unfinished_imports,
+        namespace,
+        false,
+    );
+    finish_cyclic_imports(unfinished_imports);
+    res
 }
 
 pub(crate) fn load_toplevel_items_with_stubs(
@@ -316,13 +326,47 @@ pub(crate) fn load_toplevel_items_with_stubs(
     namespace: Rc<RefCell<NamespaceInfo>>,
 ) -> (Vec<Diagnostic>, Vec<SymbolName>) {
     let mut paths_seen = FxHashSet::default();
-    load_toplevel_items_(items, env, &mut paths_seen, namespace, true)
+    let mut unfinished_imports = vec![];
+    let res = load_toplevel_items_(
+        items,
+        env,
+        &mut paths_seen,
+        &mut unfinished_imports,
+        namespace,
+        true,
+    );
+    finish_cyclic_imports(unfinished_imports);
+    res
+}
+
+/// A namespace that imported all the public items of another
+/// namespace, while that namespace was still being loaded.
+type UnfinishedImport = (Rc<RefCell<NamespaceInfo>>, Rc<RefCell<NamespaceInfo>>);
+
+/// A cyclic `import "x.gdn"` can only copy the public items that
+/// x.gdn had defined so far. Now that every file is fully loaded,
+/// copy the rest, without replacing anything that is already in scope.
+fn finish_cyclic_imports(unfinished_imports: Vec<UnfinishedImport>) {
+    for (current_ns, imported_ns) in unfinished_imports {
+        if Rc::ptr_eq(&current_ns, &imported_ns) {
+            continue;
+        }
+
+        let imported_ns = imported_ns.borrow();
+        let mut current_ns = current_ns.borrow_mut();
+        for (sym, value) in &imported_ns.values {
+            if imported_ns.exported_syms.contains(sym) && !current_ns.values.contains_key(sym) {
+                current_ns.values.insert(sym.clone(), value.clone());
+            }
+        }
+    }
 }
 
 fn load_toplevel_items_(
     items: &[ToplevelItem],
     env: &mut Env,
     paths_seen: &mut FxHashSet<PathBuf>,
+    unfinished_imports: &mut Vec<UnfinishedImport>,
     namespace: Rc<RefCell<NamespaceInfo>>,
     vivify_types: bool,
 ) -> (Vec<Diagnostic>, Vec<SymbolName>) {
@@ -474,6 +518,9 @@ fn load_toplevel_items_(
                     // again, but we do need to add the values to the
                     // current namespace.
                     let imported_ns = env.get_namespace(&abs_path).unwrap();
+                    if import_info.namespace_sym.is_none() {
+                        unfinished_imports.push((Rc::clone(&namespace), Rc::clone(&imported_ns)));
+                    }
                     insert_imported_namespace(
                         import_info.namespace_sym.as_ref(),
                         Rc::clone(&namespace),
@@ -526,6 +573,7 @@ fn load_toplevel_items_(
                     &imported_items,
                     env,
                     paths_seen,
+                    unfinished_imports,
                     Rc::clone(&destination_ns),
                     vivify_types,
                 );
